@@ -239,7 +239,29 @@ impl Slab {
     ///
     /// The caller must ensure that the object is still present in the slab. Slab handles are just
     /// fat pointers, so ownership and object lifetime must be managed manually by the caller.
+    #[cfg(test)] // Production code uses `remove_deferred_drop()` to control when the drop happens.
     pub(crate) unsafe fn remove<T: ?Sized>(&mut self, handle: SlabHandle<T>) {
+        // SAFETY: Forwarding safety requirements from the caller.
+        let old_meta = unsafe { self.remove_deferred_drop(handle) };
+
+        // It is now safe to do the drop. If drop() panics, the slab is still in a valid state.
+        drop(old_meta);
+    }
+
+    /// Removes an object from the slab without dropping it yet.
+    ///
+    /// The returned slot metadata owns the object: dropping it runs the object's destructor.
+    /// This lets the caller finish its own bookkeeping before any user code (the destructor)
+    /// runs, so that a panicking destructor cannot leave the caller in an inconsistent state.
+    ///
+    /// # Safety
+    ///
+    /// Same as [`Self::remove`].
+    #[must_use]
+    pub(crate) unsafe fn remove_deferred_drop<T: ?Sized>(
+        &mut self,
+        handle: SlabHandle<T>,
+    ) -> SlotMeta {
         // we also verify that the pointer matches, because otherwise one might mix up
         // slot 5 in slab A with slot 5 in slab B.
         #[cfg(debug_assertions)]
@@ -292,8 +314,7 @@ impl Slab {
         // Cannot overflow because we asserted above the removed entry was occupied.
         self.count = self.count.wrapping_sub(1);
 
-        // It is now safe to do the drop. If drop() panics, the slab is still in a valid state.
-        drop(old_meta);
+        old_meta
     }
 
     /// Removes an object from the slab, returning it.
